@@ -225,6 +225,33 @@ example : (TH.run TH.init [.add 18446744073709551615, .tick 1, .add 7, .avg 5, .
     [.ok, .ok, .ok, .total 6 5, .total 7 1] := by
   rw [C12_timeheap_refines]; decide
 
+/-- **The rounding of the returned `float32` is round-to-nearest, ties-to-even**: `TH.roundDiv N D` (the rounding
+step of `TH.f32OfRat`, which models `float32(total)` and the `float32` quotient of `AveragePerSecond`) is within
+half a unit of `N / D`, and on a tie it is even. -/
+theorem C12_timeheap_float_round_nearest_even (N D : Nat) (hD : 0 < D) :
+    2 * N ≤ (2 * TH.roundDiv N D + 1) * D ∧ 2 * TH.roundDiv N D * D ≤ 2 * N + D ∧
+    (2 * N + D = 2 * TH.roundDiv N D * D ∨ 2 * N = (2 * TH.roundDiv N D + 1) * D → TH.roundDiv N D % 2 = 0) := by
+  have h1 := Nat.div_add_mod N D
+  have h2 := Nat.mod_lt N hD
+  unfold TH.roundDiv
+  simp only
+  generalize N / D = q at *
+  generalize N % D = r at *
+  have e1 : (2 * (q + 1) + 1) * D = 2 * (D * q) + 3 * D := by rw [Nat.add_mul, Nat.mul_assoc, Nat.mul_comm (q+1) D, Nat.mul_add]; omega
+  have e2 : 2 * (q + 1) * D = 2 * (D * q) + 2 * D := by rw [Nat.mul_assoc, Nat.mul_comm (q+1) D, Nat.mul_add]; omega
+  have e3 : (2 * q + 1) * D = 2 * (D * q) + D := by rw [Nat.add_mul, Nat.mul_assoc, Nat.mul_comm q D]; omega
+  have e4 : 2 * q * D = 2 * (D * q) := by rw [Nat.mul_assoc, Nat.mul_comm q D]
+  split
+  · rw [e1, e2]
+    refine ⟨by omega, by omega, ?_⟩
+    intro h; omega
+  · rw [e3, e4]
+    refine ⟨by omega, by omega, ?_⟩
+    intro h; omega
+
+-- non-vacuity: 5/2 rounds to 2 (tie, even), 7/2 to 4 (tie, even), 8/3 to 3
+example : TH.roundDiv 5 2 = 2 ∧ TH.roundDiv 7 2 = 4 ∧ TH.roundDiv 8 3 = 3 := by decide
+
 /-! ## IndexedStorage — a keyed store of storages -/
 
 /-- Observational equivalence with the abstract model (a partial function from indexes to
